@@ -13,9 +13,17 @@
     (finding C09-F1), [fixed_F1 = true] the candidate repair fixes/C09-F1.diff.
 
     Oracles (data of a case, never axioms): net.ParseIP / net.ParseCIDR on the
-    configured entries and on the peer, net.SplitHostPort on RemoteAddr,
-    net/http's request parser (canonical header keys, Host, escaped path, raw
-    query) and url.Parse on the X-Forwarded-Uri value ([parse_uri]). *)
+    configured entry strings and on the peer host ([parse_ip], [parse_cidr]),
+    net.SplitHostPort on RemoteAddr ([split_host_port]), net/http's request
+    parser for Host, escaped path and raw query, and url.Parse on the
+    X-Forwarded-Uri value ([parse_uri]).  Modelled (and compared with net/http's
+    answer on every case): textproto.CanonicalMIMEHeaderKey on token names
+    ([canon_key]) and the trimming of optional white space of header values.
+
+    Layers: [serve] works on parse results (entries, peer bytes, canonical
+    header list); [handle] is the whole entry point on what an operator and a
+    client supply: the mode, the two configured trusted_proxies options as
+    strings, RemoteAddr, the request line and the header lines as sent. *)
 From HV Require Import Base.Prelude.
 Open Scope string_scope.
 
@@ -100,6 +108,28 @@ Definition has (k : string) (h : hdrs) : bool := negb (is_nil (values k h)).
 Definition del (k : string) (h : hdrs) : hdrs :=
   filter (fun kv => negb (String.eqb (fst kv) k)) h.
 
+(** textproto.CanonicalMIMEHeaderKey on a valid token (net/http rejects header lines whose
+    name is not a token before heimdall sees the request): the first letter and every letter
+    after a '-' in upper case, all other letters in lower case *)
+Definition is_lower (a : ascii) : bool := let n := N_of_ascii a in ((97 <=? n) && (n <=? 122))%N.
+Definition is_upper (a : ascii) : bool := let n := N_of_ascii a in ((65 <=? n) && (n <=? 90))%N.
+Definition to_upper (a : ascii) : ascii := if is_lower a then ascii_of_N (N_of_ascii a - 32) else a.
+Definition to_lower (a : ascii) : ascii := if is_upper a then ascii_of_N (N_of_ascii a + 32) else a.
+
+Fixpoint canon_go (upper : bool) (s : string) : string :=
+  match s with
+  | EmptyString => EmptyString
+  | String c r =>
+    let c' := if upper then to_upper c else to_lower c in
+    String c' (canon_go (Ascii.eqb c' "-") r)
+  end.
+
+Definition canon_key (s : string) : string := canon_go true s.
+
+(** the header lines of a request as sent (name in any casing, value with optional white
+    space around it) and what net/http's parser makes of them *)
+Definition raw_hdrs := list (string * string).
+
 Definition XFF := "X-Forwarded-For".
 Definition XFP := "X-Forwarded-Proto".
 Definition XFH := "X-Forwarded-Host".
@@ -110,6 +140,12 @@ Definition FWD := "Forwarded".
 
 (** trustedproxy.untrustedHeader *)
 Definition untrusted_header : list string := [FWD; XFF; XFP; XFH; XFU; XFPath; XFM].
+
+Definition parse_headers (r : raw_hdrs) : hdrs :=
+  map (fun nv => (canon_key (fst nv), http_trim (snd nv))) r.
+
+(** Header.Set: replaces all values of the key *)
+Definition set_hdr (k v : string) (h : hdrs) : hdrs := del k h ++ [(k, v)].
 
 (* ------------------------------------------------------------------ addresses *)
 
@@ -157,6 +193,15 @@ Fixpoint masked_eqb (nn m p : list N) : bool :=
   | [], _, [] => true
   | n :: nn', mb :: m', pb :: p' => N.eqb (N.land n mb) (N.land pb mb) && masked_eqb nn' m' p'
   | _, _, _ => false  (* lengths differ: excluded by the length test before the loop, or a Go index panic *)
+  end.
+
+(** would the loop of IPNet.Contains index out of range (a Go panic)?  [l = len(ip)] bytes are read
+    from the network number and the mask *)
+Definition contains_panics (a : ip) (m : list N) (p : ip) : bool :=
+  let p' := match to4 p with Some x => x | None => p end in
+  match network_number_and_mask a m with
+  | None => false
+  | Some (nn, mk) => Nat.eqb (length p') (length nn) && negb (Nat.leb (length p') (length mk))
   end.
 
 (** net.IPNet.Contains *)
@@ -270,36 +315,96 @@ Section Oracle.
   Definition forwarded_elem (c : conn) : string :=
     "for=" ++ c_peer c ++ ";host=" ++ c_host c ++ ";proto=" ++ actual_scheme c.
 
-  (** rewriteRequest: httputil.ReverseProxy has removed Forwarded, X-Forwarded-For/-Host/-Proto from the
-      outgoing request, heimdall removes X-Forwarded-Method/-Uri/-Path; then the block that re-creates them
-      from [proxyReq.In] (the request after the middleware).  Result: the seven names at the upstream, in
-      the order of [untrusted_header], values as they arrive (net/http trims optional white space). *)
-  Definition upstream_forwarded (c : conn) (h : hdrs) : list (string * list string) :=
+  (** the headers of the outgoing proxy request, as far as they derive from the incoming request
+      (hop-by-hop headers, which ReverseProxy removes, and the headers the pipeline adds are outside
+      this model).  [h] is the header list the middleware left.
+      - httputil.ReverseProxy (Rewrite set) clones the incoming headers and deletes Forwarded,
+        X-Forwarded-For, X-Forwarded-Host, X-Forwarded-Proto from the clone;
+      - rewriteRequest deletes X-Forwarded-Method, X-Forwarded-Uri, X-Forwarded-Path;
+      - then the block that re-creates the forwarding information from [proxyReq.In] (the request
+        after the middleware).  Values are what arrives (net/http trims optional white space). *)
+  Definition upstream_cleared (h : hdrs) : hdrs :=
+    fold_left (fun acc n => del n acc) [FWD; XFF; XFH; XFP; XFM; XFU; XFPath] h.
+
+  Definition upstream_headers (c : conn) (h : hdrs) : hdrs :=
     let xfh := get XFH h in
     let xfp := get XFP h in
     let xff := get XFF h in
     let fw := get FWD h in
+    let out := upstream_cleared h in
     if nonempty xff || nonempty xfp || nonempty xfh then
-      [ (XFF, [http_trim (if nonempty xff then xff ++ ", " ++ c_peer c else c_peer c)]);
-        (XFP, [http_trim (if nonempty xfp then xfp else actual_scheme c)]);
-        (XFH, [http_trim (if nonempty xfh then xfh else c_host c)]) ]
+      set_hdr XFH (http_trim (if nonempty xfh then xfh else c_host c))
+        (set_hdr XFP (http_trim (if nonempty xfp then xfp else actual_scheme c))
+           (set_hdr XFF (http_trim (if nonempty xff then xff ++ ", " ++ c_peer c else c_peer c)) out))
     else
-      [ (FWD, [http_trim (if nonempty fw then fw ++ ", " ++ forwarded_elem c else forwarded_elem c)]) ].
+      set_hdr FWD (http_trim (if nonempty fw then fw ++ ", " ++ forwarded_elem c else forwarded_elem c)) out.
 
   (** what one request produces: the view handed to matching and mechanisms, and (proxy mode) the
-      forwarded headers and request line that reach the upstream *)
+      method and the headers of the request that reaches the upstream *)
   Record served := {
     s_view : view;
-    s_up_fwd : list (string * list string);
-    s_up_method : string;
-    s_up_uri : string
+    s_up_hdrs : hdrs;
+    s_up_method : string
   }.
-
-  Definition request_uri (v : view) : string :=
-    v_rawpath v ++ (if nonempty (v_query v) then "?" ++ v_query v else "").
 
   Definition serve (fixed_F1 : bool) (es : list entry) (peer : ip) (c : conn) (h : hdrs) : served :=
     let h' := strip (trusted_peer fixed_F1 es peer) h in
     let v := view_of c h' in
-    {| s_view := v; s_up_fwd := upstream_forwarded c h'; s_up_method := v_method v; s_up_uri := request_uri v |}.
+    {| s_view := v; s_up_hdrs := upstream_headers c h'; s_up_method := v_method v |}.
+
+  (* ---------------------------------------------------------------- the entry point on strings *)
+
+  Section Net.
+    Variable parse_ip : string -> ip.                       (* net.ParseIP; [[]] = nil *)
+    Variable parse_cidr : string -> option (ip * list N).   (* net.ParseCIDR: network number and mask *)
+    Variable split_host_port : string -> option string.     (* net.SplitHostPort: the host, [None] on error *)
+
+    Definition contains_slash (s : string) : bool := existsb (Ascii.eqb "/") (list_ascii_of_string s).
+
+    (** the dispatch of trustedproxy.New on one configured string *)
+    Definition entry_of (s : string) : entry :=
+      if contains_slash s then
+        match parse_cidr s with Some (a, m) => ECidr a m | None => ECidrErr end
+      else EIp (parse_ip s).
+
+    Fixpoint drop_last (s : string) : string :=
+      match s with
+      | EmptyString => EmptyString
+      | String a EmptyString => EmptyString
+      | String a r => String a (drop_last r)
+      end.
+
+    (** httpx.IPFromHostPort *)
+    Definition ip_from_host_port (hp : string) : string :=
+      match split_host_port hp with
+      | None => ""
+      | Some (String "[" r) => drop_last r
+      | Some host => host
+      end.
+
+    Inductive mode := Decision | Proxy.
+
+    (** serve.decision.trusted_proxies and serve.proxy.trusted_proxies; [None] = option not set *)
+    Record config := { cfg_decision : option (list string); cfg_proxy : option (list string) }.
+
+    (** decision/service.go and proxy/service.go: each service hands its own option to
+        trustedproxy.New, an absent option as the empty list *)
+    Definition configured (m : mode) (cfg : config) : list string :=
+      match (match m with Decision => cfg_decision cfg | Proxy => cfg_proxy cfg end) with
+      | Some l => l
+      | None => []
+      end.
+
+    (** the request line and connection facts that net/http hands to the handler chain *)
+    Record reqline := { r_remote : string; r_tls : bool; r_method : string; r_host : string;
+                        r_escpath : string; r_rawquery : string }.
+
+    Definition conn_of (r : reqline) : conn :=
+      {| c_peer := ip_from_host_port (r_remote r); c_tls := r_tls r; c_method := r_method r; c_host := r_host r;
+         c_escpath := r_escpath r; c_rawquery := r_rawquery r |}.
+
+    Definition handle (fixed_F1 : bool) (m : mode) (cfg : config) (r : reqline) (raw : raw_hdrs) : served :=
+      serve fixed_F1 (map entry_of (configured m cfg)) (parse_ip (ip_from_host_port (r_remote r)))
+            (conn_of r) (parse_headers raw).
+  End Net.
 End Oracle.
